@@ -308,6 +308,16 @@ class History:
         p = gen.dense_to_index(m3, x.common)
         eq(x, p, False, "shape-perturbed")
         eq(p, x, False, "shape-perturbed-rev")
+        # one trailing axis more (also of extent 1) / one less: another shape, another array
+        for ext in (1, 2):
+            m4 = numpy.repeat(m[..., None], ext, axis=-1)
+            p = gen.dense_to_index(m4, x.common)
+            eq(x, p, False, "axis-added(extent %d)" % ext)
+            eq(p, x, False, "axis-added(extent %d)-rev" % ext)
+        if m.ndim >= 2:
+            p = gen.dense_to_index(m[..., 0], x.common)
+            eq(x, p, False, "axis-dropped")
+            eq(p, x, False, "axis-dropped-rev")
         oc = [v for v in self.vals + [max(self.vals) + 1, min(self.vals) - 1] if v != x.common]
         p = gen.dense_to_index(m, gen.pick(rng, oc))
         eq(x, p, False, "common-perturbed")
